@@ -6,6 +6,7 @@ package main
 
 import (
 	"context"
+	"errors"
 	"fmt"
 	"math/big"
 	"sort"
@@ -48,9 +49,9 @@ type jstep struct {
 
 // stepLogger records every executed instruction of interest.
 type stepLogger struct {
-	steps  []jstep
-	all    []jstep
-	db     *countingDB
+	steps []jstep
+	all   []jstep
+	db    *countingDB
 }
 
 func (l *stepLogger) CaptureTxStart(uint64) {}
@@ -74,9 +75,10 @@ func (l *stepLogger) CaptureState(pc uint64, op vm.OpCode, gas, cost uint64, sco
 type jcase struct {
 	fork    string
 	static  bool
-	mem     []byte                       // calldata copied to memory (padded to 32 by the EVM)
+	mem     []byte // calldata copied to memory (padded to 32 by the EVM)
 	storage map[common.Hash]common.Hash
 	ops     []jinstr
+	prefill int // words pushed before the first journal instruction (stack depth at which the instructions run)
 }
 type jinstr struct {
 	op   int
@@ -89,6 +91,9 @@ var callerAddr = common.BytesToAddress([]byte{0xca})
 func (c *jcase) program() []byte {
 	a := &Asm{}
 	a.Op(opCALLDATASIZE, opPUSH1, 0, opPUSH1, 0, opCALLDATACOPY)
+	for i := 0; i < c.prefill; i++ {
+		a.Op(opPUSH1, byte(i))
+	}
 	for _, in := range c.ops {
 		for i := len(in.args) - 1; i >= 0; i-- {
 			a.Push(in.args[i])
@@ -239,6 +244,22 @@ func runJCase(c *jcase, em *Emitter, tags string, queries func(t *vm.Tracer, q f
 	if panicked != "" && len(jsteps) == 0 {
 		em.Op(tags, "J none", "panic:"+strings.ReplaceAll(panicked, " ", "_"))
 	}
+	// C12 specification: the program consists of pushes and journal instructions only and never exceeds 1024 stack items, so
+	// every journal instruction runs unless an earlier one halted the frame on its own operands — at any stack depth
+	if panicked == "" {
+		v := "ok"
+		if len(jsteps) < len(c.ops) && class == "ok" {
+			v = fmt.Sprintf("halted_before_journal_instruction_%d_%s_at_stack_depth_%d:%s", len(jsteps), jopNames[c.ops[len(jsteps)].op],
+				c.prefill+len(c.ops[len(jsteps)].args), strings.ReplaceAll(fmt.Sprint(err), " ", "_"))
+		}
+		var so *vm.ErrStackOverflow
+		var su *vm.ErrStackUnderflow
+		if errors.As(err, &so) || errors.As(err, &su) {
+			// a journal instruction only pops operands the program has just pushed: a stack-bound failure is never its own doing
+			v = fmt.Sprintf("stack_bound_failure_with_prefill_%d:%s", c.prefill, strings.ReplaceAll(err.Error(), " ", "_"))
+		}
+		em.Op("C12", "S jran", v)
+	}
 	if root != nil && panicked == "" {
 		em.Op("-", fmt.Sprintf("T exit %s %s %s", hexU64(root.RemainingGas), optBytes(root.Ret), ferr(root.Err)), "ok")
 	}
@@ -278,6 +299,19 @@ var boundaryU = []string{"0", "1", "1f", "20", "21", "3f", "40", "41", "7fffffff
 func boundaryWord(r *Rng) *uint256.Int {
 	if r.Chance(30) {
 		return wordFrom(r)
+	}
+	if r.Chance(25) {
+		// just below a power the code's arithmetic can wrap at: 2^64-k, 2^63-k, 2^256-k, 2^64+k for small k — so that a sum with
+		// another small operand crosses the boundary
+		k := uint256.NewInt(uint64(r.Intn(41)))
+		base := new(uint256.Int).Lsh(uint256.NewInt(1), uint([]int{64, 64, 64, 63, 0}[r.Intn(5)]))
+		if base.Eq(uint256.NewInt(1)) {
+			base = uint256.NewInt(0) // 2^256 - k
+		}
+		if r.Chance(85) {
+			return base.Sub(base, k)
+		}
+		return base.Add(base, k)
 	}
 	u, _ := uint256.FromHex("0x" + boundaryU[r.Intn(len(boundaryU))])
 	return u
@@ -594,6 +628,17 @@ func driveJournal(seed uint64, n int, size int, em *Emitter, exhaustive bool) {
 	for i := 0; i < n; i++ {
 		em.Reset(fmt.Sprintf("journal-prog-%d-%d", seed, i))
 		c := genJournalProgram(r.Fork())
+		if r.Chance(12) && len(c.ops) > 0 {
+			// run the instructions just below the stack limit
+			mx := 0
+			for _, in := range c.ops {
+				if len(in.args) > mx {
+					mx = len(in.args)
+				}
+			}
+			c.prefill = 1024 - mx - r.Intn(3)
+			em.Count("prog:deep-stack")
+		}
 		ce0, first := captureEmitter()
 		runJCase(c, ce0, "C03,C09,C10,C12,C16", tracerQueriesFor(c))
 		for _, l := range *first {
@@ -664,6 +709,13 @@ func driveJournal(seed uint64, n int, size int, em *Emitter, exhaustive bool) {
 		}
 		if r.Chance(12) {
 			sz = boundaryWord(r)
+		}
+		if r.Chance(8) {
+			// complementary pair: offset + size crosses 2^64 (or lands just below / above it)
+			o := uint64(r.Intn(34))
+			off = uint256.NewInt(o)
+			sz = new(uint256.Int).Sub(new(uint256.Int).Lsh(uint256.NewInt(1), 64), uint256.NewInt(o+uint64(r.Intn(3))))
+			sz.Add(sz, uint256.NewInt(uint64(r.Intn(3))))
 		}
 		specValueCase(r, em, wordFrom(r), off, sz, forks[r.Intn(len(forks))])
 	}
